@@ -154,7 +154,11 @@ class G:
         return St("decl_annot", ["v%d: %s = %s" % (n, ty, self.e(ty))],
                   [("wrong_init", ["v%d: %s = %s" % (n, ty, w)], (0, 0), "%s <- %s" % (ty, t2)),
                    ("wrong_init", ["v%d: %s = %s" % (n, ty, OPT_OF[ty])], (0, 0), "%s <- %s? (optional where a plain value is required)" % (ty, ty)),
-                   ("unknown_name", ["v%d: %s = nope%d" % (n, ty, n)], (0, 0), "")])
+                   ("unknown_name", ["v%d: %s = nope%d" % (n, ty, n)], (0, 0), ""),
+                   # the name being declared is not yet a variable inside its own initializer
+                   ("unknown_name", ["v%d: %s = v%d" % (n, ty, n)], (0, 0), "the declared name itself, in its own initializer"),
+                   ("unknown_name", ["v%d: %s = (%s) or v%d" % (n, ty, OPT_OF[ty], n)], (0, 0), "the declared name itself, as the fallback of its own initializer"),
+                   ("unknown_name", ["v%d: [%s...] = [v%d]" % (n, ty, n)], (0, 0), "the declared name itself, inside a list in its own initializer")])
 
     def t_decl_alias(self):
         n = self.uid()
@@ -506,6 +510,8 @@ class G:
                   [("index_non_indexable", mut(2, "is%d[0] = \"x\"" % n), (2, 2), "element of a str assigned"),
                    ("index_non_indexable", mut(3, "is%d[0] += \"x\"" % n), (3, 3), "element of a str op-assigned"),
                    ("index_non_indexable", mut(2, "gi[0] = 1"), (2, 2), "element of an int assigned"),
+                   ("index_non_indexable", mut(2, "gs[0] = \"x\""), (2, 2), "element of a str of an enclosing scope (captured inside functions) assigned"),
+                   ("index_non_indexable", mut(3, "gs[0] += \"x\""), (3, 3), "element of a str of an enclosing scope op-assigned"),
                    ("wrong_reassign", mut(2, "iw%d[0] = %s" % (n, w)), (2, 2), "list element int <- %s" % t2),
                    # a `T?` may be nil: it does not fit a plain `T` slot of a list, a map or a nested list
                    ("wrong_reassign", mut(2, "iw%d[0] = goi" % n), (2, 2), "list element int <- int? (optional into a plain slot)"),
@@ -1345,6 +1351,45 @@ def coq_check(terms, tag):
 
 # ------------------------------------------------------------------ the check
 
+# ---- the KIND of a constant expression (the compiler evaluates it itself, with a table of its own) is the kind the
+# operator's type rule gives: declared as any other numeric kind, the initializer is wrong-typed.  Fixed, all triples.
+def constant_kind_cases():
+    from . import num_common as nc
+    S = {"I": "I6", "B": "B3", "Y": "Y2", "F": "F3ff8000000000000"}
+    D = {"I": "int", "B": "bigint", "Y": "byte", "F": "float"}
+    out = []
+    for op in nc.ARITH + nc.BITS + nc.SHIFTS:
+        for k1 in "IBYF":
+            for k2 in "IBYF":
+                r = nc.oracle(op, S[k1], S[k2])
+                if r == "UNDEF":
+                    continue
+                e = "%s %s %s" % (nc.literal(S[k1]), nc.SYMBOL[op], nc.literal(S[k2]))
+                out.append(("%s: %s" % (e, D[r[0]]), "print \"MARK\"\nx: %s = %s\nprint x\nprint \"END\"\n" % (D[r[0]], e), True))
+                for d in "IBYF":
+                    if d != r[0]:
+                        out.append(("%s (a %s) declared %s" % (e, D[r[0]], D[d]), "print \"MARK\"\nx: %s = %s\nprint x\nprint \"END\"\n" % (D[d], e), False))
+    return out
+
+
+def run_constant_kinds(ctx, binary, base):
+    cases = constant_kind_cases()
+    n = bad = 0
+    for (cid, src, legal), (rc, out, err) in zip(cases, programs.pmap(lambda c: run_prog(binary, base, {"main.ms": c[1]}), cases)):
+        n += 1
+        rejected = "Did not compile successfully" in err and "MARK" not in out
+        if legal and (rejected or rc != 0):
+            bad += 1
+            ctx.report("base-program-rejected:constant_expression", "a constant expression declared with the kind its operator yields (%s) is %s: %s" % (cid, "rejected" if rejected else "failing (exit %d)" % rc, (out + err)[-200:]),
+                       {"files": {"main.ms": src}, "observed": {"rc": rc, "stdout": out[-300:], "stderr": err[-300:]}})
+        elif not legal and not rejected:
+            bad += 1
+            ctx.report("accepted:wrong_init/constant_expression", "ill-typed initializer accepted: the constant expression %s: exit %d, printed %r" % (cid, rc, out.split("\n")[:4]),
+                       {"files": {"main.ms": src}, "observed": {"rc": rc, "stdout": out[-300:], "stderr": err[-300:]}, "how": "mscript run main.ms -q: must fail to compile, nothing printed"})
+    ctx.cov["constant_expression_kind_cases"] = n
+    return n, bad
+
+
 def run(ctx):
     ok = core.coq_props(ctx, "Props/C03.v")
     binary = core.build_repo()
@@ -1482,7 +1527,9 @@ def run(ctx):
     if len(discarded) > 0.25 * len(progs) or core_discarded > 0.25 * ncore:
         ctx.report("generator-degraded", "%d of %d generated base programs (%d of %d core programs) are not accepted by the compiler: the templates no longer match the language"
                    % (len(discarded), len(progs), core_discarded, ncore), {"discarded": discarded[:10]}, found_input=False)
-    ctx.cov["evaluations"] = len(jobs) + len(progs) + len(cases)
+    n_ck, bad_ck = run_constant_kinds(ctx, binary, base)
+    bad += bad_ck
+    ctx.cov["evaluations"] = len(jobs) + len(progs) + len(cases) + n_ck
     ctx.cov["triples"] = len(jobs)
     ctx.cov["distinct_nontrivial"] = len({(j["fault"], j["template"], tuple(j["ctx"])) for j in jobs})
     ctx.cov["rule"] = ("triples = (well-typed generated program, site, fault) mutants actually run; distinct_nontrivial = distinct "
